@@ -16,7 +16,7 @@ Polys == /\ E.ev = "polys"
          /\ LET a == E.a  b == E.b  k == E.k  R == E.res IN
             /\ PEq(R.add, PAdd(a, b)) /\ Len(R.add) = (IF Len(a) >= Len(b) THEN Len(a) ELSE Len(b))
             /\ PEq(R.sub, PSub(a, b))
-            /\ PEq(R.mul, PMul(a, b)) /\ Len(R.mul) = Len(a) + Len(b) - 1
+            /\ PEq(R.mul, PMul(a, b)) /\ ((Len(a) > 0 /\ Len(b) > 0) => Len(R.mul) = Len(a) + Len(b) - 1)
             /\ PEq(R.scale, PScale(a, k)) /\ Len(R.scale) = Len(a)
             /\ R.degree_a = Deg(a) /\ R.degree_b = Deg(b)
             /\ PEq(R.rlz_a, a) /\ (Len(R.rlz_a) = Deg(a) + 1 \/ (IsZeroPoly(a) /\ Len(R.rlz_a) <= 1))   \* remove_leading_zeros
